@@ -45,5 +45,5 @@ InBounds == pos >= 0 /\ pos <= Len(inp)
 OutcomeSet == outcome \in {"none", "Accepted", "Rejected"}
 Terminates == steps <= 2 * (MaxLen + 2)             \* work is linear in the input, whatever the length / count fields say
 MutationClasses == {"valid", "degenerate", "random", "truncate", "append", "prepend", "drop-prefix",
-                    "window1", "window2", "window4", "bitflip", "truncate+window", "window+extend", "tail-ramp", "deep-nesting"}
+                    "window1", "window2", "window4", "bitflip", "truncate+window", "window+extend", "tail-ramp", "deep-nesting", "reshape-component"}
 ====
